@@ -114,7 +114,7 @@ CLAIMS['C07'] = dict(
     text='Narrow claim: structural clauses of the STACK WIN semantics. The operator table of eval_win_expr (same rules as C06 on u32 plus `=` and `.undef`), the six predefined constants and their sources, the `@` search-start rule, '
          'the output alphabet (only eip esp ebp ebx esi edi reported), clearing before evaluation and framedata-before-fpo priority are extracted and checked; every register name handed to the FrameWalker interface must be a name the x86 context knows. '
          'The last rule exposes a genuine defect (names are cleared with a `$` prefix, so nothing is cleared and callee registers are forwarded); it is a recorded known finding because the obvious repair changes two existing CLI snapshots. '
-         'Two overflow panics in this code were repaired in /repo. Numeric results are not computed. FPO formula table (C07.6): for every path to every set_caller_register call in walk_with_stack_win_fpo the reaching definitions are substituted into the value and compared, as linear address forms, with the documented $eip/$esp/$ebp/%ebx formulae incl. the leftover-return-address skip; the branch conditions must be the documented decisions. C07.7: the grand-callee facts the FPO skip and .cbParams rest on (CfiStackWalker.has_grand_callee = grand_callee_frame.is_some(), grand_callee_parameter_size = its parameter_size or 0, accessors return the fields) are pinned field by field.',
+         'Two overflow panics in this code were repaired in /repo. Numeric results are not computed. FPO formula table (C07.6): for every path to every set_caller_register call in walk_with_stack_win_fpo the reaching definitions are substituted into the value and compared, as linear address forms, with the documented $eip/$esp/$ebp/%ebx formulae incl. the leftover-return-address skip; the branch conditions must be the documented decisions. C07.7: the grand-callee facts the FPO skip and .cbParams rest on (CfiStackWalker.has_grand_callee = grand_callee_frame.is_some(), grand_callee_parameter_size = its parameter_size or 0, accessors return the fields) are pinned field by field. C07.8: literals are parsed with i64 precision in both evaluators.',
     note='Trusted: rustc MIR, u32::wrapping_* semantics. Table entries marked ASSUMPTION (32-bit callee registers) apply to the FPO arithmetic.',
     ref='DESIGN.md §3 C07')
 
